@@ -39,7 +39,7 @@ E3_NOTE = ("Trusted: the harness' in-memory / raw-TCP targets and its reading of
 CHECKS.update({
  "C09": dict(engine="E3 sidecar", level="fault_enumeration", ref="DESIGN.md §5 C09",
    technique="fault injection + state monitor: store write cut after every byte offset via RLIMIT_FSIZE in a child process, process killed inside the write via strace signal injection, SIGKILL of the real binary, repeated fresh Load() compared with previous/new assignment",
-   text="The fault space (pair of consecutive assignments x byte offset at which the store write stops) is finite and swept: thorough enumerates every offset for every ordered pair of 8 assignment shapes, quick every offset for four pairs and strided for the rest, plus the old-file-name fall-back path, plus a sweep in which the updating process is KILLED inside the store write (strace-injected SIGKILL, no clean-up code runs) followed by three restarts and an acknowledged follow-up update, a retry of the same update after a failed write (must then persist), a check that the restarted sidecar REPORTS one status entry per resumed target in the target's state, 'wired' cases (every ordered pair of shapes acknowledged by a fully wired sidecar whose configuration knows only some of the assigned jobs, then restarts), every restart repeated with update callbacks that fail ('Prometheus not up yet': what is resumed must not depend on it), plus SIGKILLs of the real `kvass sidecar` binary mid-update followed by a restart of the binary. Oracle: the next start succeeds and resumes exactly the previous or the new assignment (deep JSON equality incl. idle-since), the new one if the update was acknowledged.",
+   text="The fault space (pair of consecutive assignments x byte offset at which the store write stops) is finite and swept: thorough enumerates every offset for every ordered pair of 8 assignment shapes, quick every offset for four pairs and strided for the rest, plus the old-file-name fall-back path, plus a sweep in which the updating process is KILLED inside the store write (strace-injected SIGKILL, no clean-up code runs) followed by three restarts and an acknowledged follow-up update, a retry of the same update after a failed write (must then persist), a sweep in which the process is killed at the k-th open / fsync / rename / unlink / close call on the store or its temporary file, a check that the restarted sidecar REPORTS one status entry per resumed target in the target's state, 'wired' cases (every ordered pair of shapes acknowledged by a fully wired sidecar whose configuration knows only some of the assigned jobs, then restarts), every restart repeated with update callbacks that fail ('Prometheus not up yet': what is resumed must not depend on it), plus SIGKILLs of the real `kvass sidecar` binary mid-update followed by a restart of the binary. Oracle: the next start succeeds and resumes exactly the previous or the new assignment (deep JSON equality incl. idle-since), the new one if the update was acknowledged.",
    note=E3_NOTE + " A write cut by RLIMIT_FSIZE is taken to leave the disk as a kill / full disk at that byte would; fsync / power-loss semantics of the file system are out of scope."),
  "C10": dict(engine="E3 sidecar", level="exploration", ref="DESIGN.md §5 C10",
    technique="runtime monitoring against an executable reference model of (status map, idle-since) after every operation",
@@ -51,11 +51,11 @@ CHECKS.update({
    note=E3_NOTE),
  "C13": dict(engine="E3 sidecar", level="fault_enumeration", ref="DESIGN.md §5 C13",
    technique="fault injection at every stage and every body offset behind the real proxy; outcome monitor on the Prometheus side (status / aborted response) and on /targets/status/",
-   text="One fault per case, enumerated: connect error, five non-200 codes, stalls beyond the timeout before headers and mid body, administrative stop, administrative stop set or lifted while the real request is in flight (the attempt may count either way but consistently: complete 200 with the full body and health up, or a failed response and health down), a transfer beginning (normal -> in_transfer) while a scrape that ends differently from the previous one is in flight (status must show that scrape's outcome, counter 1), a stalled target where the Prometheus-side client gives up before the proxy's own timeout fires (the attempt still failed), body breaking off at EVERY wire offset (identity and gzip, three error kinds incl. 'connection reset by peer'), multi-block bodies at block boundaries, and real TCP faults (short Content-Length, cut chunked body, RST), each seen through an instrumented writer and through a real net/http hop. Oracle: the Prometheus side sees non-200 or an aborted response, never a complete 200; health down with an error; counter +1; then recovery to up.",
+   text="One fault per case, enumerated: connect error, five non-200 codes, stalls beyond the timeout before headers and mid body, administrative stop, administrative stop set or lifted while the real request is in flight (the attempt may count either way but consistently: complete 200 with the full body and health up, or a failed response and health down), a transfer beginning (normal -> in_transfer) while a scrape that ends differently from the previous one is in flight (status must show that scrape's outcome, counter 1), a stalled target where the Prometheus-side client gives up before the proxy's own timeout fires (the attempt still failed), a reload that lowers the scrape timeout followed by a target slower than the new timeout, body breaking off at EVERY wire offset (identity and gzip, three error kinds incl. 'connection reset by peer'), multi-block bodies at block boundaries, and real TCP faults (short Content-Length, cut chunked body, RST), each seen through an instrumented writer and through a real net/http hop. Oracle: the Prometheus side sees non-200 or an aborted response, never a complete 200; health down with an error; counter +1; then recovery to up.",
    note=E3_NOTE + " A break after the whole content was delivered is also required to fail on the Prometheus side (Prometheus itself would fail such a scrape)."),
  "C14": dict(engine="E3 sidecar", level="exploration", ref="DESIGN.md §5 C14",
    technique="runtime monitoring against an arithmetic reference: payloads with per-sample relabel outcome known by construction; race detector on the statistics lock",
-   text="Random scrape / assignment / rule-reload sequences over two jobs with generated payloads (duplicates, label values needing escapes, 0-6000 samples) under six metric-relabel programs whose keep/drop outcome per sample is evaluated by plain string predicates in the harness; after every operation per-scrape totals, per-metric counts and their sums, the sliding integer mean of the last <=3 successful scrapes, total-series, /runtimeinfo/ sums and the head-series floor, and /samples/ aggregation are compared with the reference; one scrape in five of an assigned target is held inside the harness transport while the identical assignment is re-posted (the scrape must count as any other). All cases run from the normal binary; the first 600 (thorough 6000) run once more, sequentially scheduled, from the -race binary.",
+   text="Random scrape / assignment / rule-reload sequences over two jobs with generated payloads (duplicates, label values needing escapes, 0-6000 samples) under eight metric-relabel programs (two of them pipelines: a rewrite rule followed by a keep/drop rule on the rewritten label) whose keep/drop outcome per sample is evaluated by plain string predicates in the harness; after every operation per-scrape totals, per-metric counts and their sums, the sliding integer mean of the last <=3 successful scrapes, total-series, /runtimeinfo/ sums and the head-series floor, and /samples/ aggregation are compared with the reference; one scrape in five of an assigned target is held inside the harness transport while the identical assignment is re-posted (the scrape must count as any other). All cases run from the normal binary; the first 600 (thorough 6000) run once more, sequentially scheduled, from the -race binary.",
    note=E3_NOTE),
 })
 
@@ -66,7 +66,7 @@ E4_NOTE = ("Trusted: the configuration / target-group generators (documented lim
 CHECKS.update({
  "C02": dict(engine="E4 config", level="exploration", ref="DESIGN.md §5 C02",
    technique="differential runtime monitoring: the real discovery -> sidecar API -> generated file -> Prometheus loader -> real proxy pipeline vs. the vendored Prometheus on the original config; observation point = request leaving JobInfo.Cli",
-   text="For generated configurations and target groups the set of (final target labels, scheme://host/path?sorted-query really requested by the proxy) obtained through the whole sharded pipeline - real TargetsDiscovery, JSON assignment to 1-3 real sidecars, generated file re-loaded with config.Load, scrape.TargetsFromGroup on its static entries, request through the real Proxy.ServeHTTP - must equal what scrape.TargetsFromGroup yields on the original configuration; the coordinator side is wired as cmd/kvass/coordinator.go does (scrape manager, explorer and discovery share one ConfigInfo): after the first comparison the explorer probes every active target (stub exporter) and the same groups are re-sent without a reload, then the configuration is reloaded with edited relabel programs / path / scheme on the same objects, explored and re-sent again (the reload also changes a configured param value, and on one sidecar the write of the generated file fails once during it) - the comparison is repeated after each of the four phases. Like the Prometheus discovery manager, the harness hands over the SAME group objects as long as a source is unchanged, and in a quarter of the cases lets two jobs with equal discovery sections share them. A differential oracle with the production Prometheus code as reference is the strongest oracle available for 'equivalent to one plain Prometheus'.",
+   text="For generated configurations and target groups the set of (final target labels, scheme://host/path?sorted-query really requested by the proxy) obtained through the whole sharded pipeline - real TargetsDiscovery, JSON assignment to 1-3 real sidecars, generated file re-loaded with config.Load, scrape.TargetsFromGroup on its static entries, request through the real Proxy.ServeHTTP - must equal what scrape.TargetsFromGroup yields on the original configuration; the coordinator side is wired as cmd/kvass/coordinator.go does (scrape manager, explorer and discovery share one ConfigInfo): after the first comparison the explorer probes every active target (stub exporter) and the same groups are re-sent without a reload, then the configuration is reloaded with edited relabel programs / path / scheme on the same objects, explored and re-sent again (the reload also changes a configured param value, and on one sidecar the write of the generated file fails once during it) - the comparison is repeated after each of the four phases. Like the Prometheus discovery manager, the harness hands over the SAME group objects as long as a source is unchanged, and in a quarter of the cases lets two jobs with equal discovery sections share them. Two further phases reload ONLY a job's metrics path (to the path some targets pin themselves, then away from it) while the harness, like shard.needUpdate, keeps targets on their shards and re-posts a list only if its hashes or states changed. A differential oracle with the production Prometheus code as reference is the strongest oracle available for 'equivalent to one plain Prometheus'.",
    note=E4_NOTE),
  "C11": dict(engine="E4 config", level="exploration", ref="DESIGN.md §5 C11",
    technique="differential runtime monitoring: generated file re-loaded with the Prometheus loader and compared field-wise with the loaded original, reflective walk over all Secret values, byte scan for job secrets",
@@ -74,11 +74,11 @@ CHECKS.update({
    note=E4_NOTE),
  "C15": dict(engine="E4 config", level="exploration", ref="DESIGN.md §5 C15",
    technique="runtime monitoring: bijection oracle between hashes and (labels, URL) over repeated rounds, permutations, label placement, fresh processes and single-component edits",
-   text="The real TargetsDiscovery is run on generated configurations and groups; across repeated rounds, three permutation modes, 1-3 fresh processes and up to 40 single-component edits per case the relation hash <-> (shipped labels, URL) must stay a bijection (reserved non-URL labels count as labels; generated pairs of targets whose label values imitate a name/value boundary for eight separators must stay apart; identities use the URL built from the job section the harness loads itself; a third of the cases add two federation jobs whose targets differ only in the second value of a multi-valued param), the by-hash table must have one key per distinct target, a job's list may repeat a hash at most once per group, and equal inputs must give equal sets.",
+   text="The real TargetsDiscovery is run on generated configurations and groups; across repeated rounds, three permutation modes, 1-3 fresh processes and up to 40 single-component edits per case the relation hash <-> (shipped labels, URL) must stay a bijection (reserved non-URL labels count as labels; generated pairs of targets whose label values imitate a name/value boundary for eight separators must stay apart; identities use the URL built from the job section the harness loads itself; a third of the cases add two federation jobs whose targets differ only in the second value of a multi-valued param, another third two identically configured jobs over the same endpoints whose job label comes from discovery - one target each, whatever the scrape job is called), the by-hash table must have one key per distinct target, a job's list may repeat a hash at most once per group, and equal inputs must give equal sets.",
    note=E4_NOTE),
  "C16": dict(engine="E4 config", level="exploration", ref="DESIGN.md §5 C16",
    technique="runtime monitoring: catalogue of single-setting edits (must change the hash) and re-renderings / external-label changes (must not), cross-process and through a sidecar's /runtimeinfo/",
-   text="For each generated configuration every applicable entry of a ~150-entry catalogue of single-setting edits must change the hash computed by the real ConfigManager, seven textual re-renderings and three external-label changes must not, the same bytes must hash identically whether loaded from a file in a nested directory (coordinator) or pushed as raw content (sidecar), in three fresh processes and inside a sidecar (as reported by /runtimeinfo/); a manager with an in-place rewriting reload callback (as cmd/kvass registers for its --inject options) must keep the content's hash through reload / stop reason set / repeated / cleared / reload, and so must the real `kvass sidecar --inject.kubernetes-sa-path=...` process (hash read from its /runtimeinfo/ after the same steps over HTTP); and with two overlapping pushes (the old content held inside the first reload callback while the new one is pushed) the reported hash must be that of the configuration the downstream callback was last given; eight managers reloading the same text concurrently must all compute the content's hash; configurations differing only in a password inside a URL (remote read/write url, proxy_url) must hash differently. Half of the cases carry a scalar with blanks beyond column 80; the real-sidecar sequence compares with the hash computed by a fresh process and pushes a second configuration version to a sidecar that has already rendered files.",
+   text="For each generated configuration every applicable entry of a ~150-entry catalogue of single-setting edits must change the hash computed by the real ConfigManager, seven textual re-renderings and three external-label changes must not, the same bytes must hash identically whether loaded from a file in a nested directory (coordinator) or pushed as raw content (sidecar), in three fresh processes and inside a sidecar (as reported by /runtimeinfo/); a manager with an in-place rewriting reload callback (as cmd/kvass registers for its --inject options) must keep the content's hash through reload / stop reason set / repeated / cleared / reload, and so must the real `kvass sidecar --inject.kubernetes-sa-path=...` process (hash read from its /runtimeinfo/ after the same steps over HTTP); and with two overlapping pushes (the old content held inside the first reload callback while the new one is pushed) the reported hash must be that of the configuration the downstream callback was last given; eight managers reloading the same text concurrently must all compute the content's hash; configurations differing only in a password inside a URL (remote read/write url, proxy_url) must hash differently. Half of the cases carry a scalar with blanks beyond column 80; the real-sidecar sequence compares with the hash computed by a fresh process and pushes a second configuration version to a sidecar that has already rendered files. Every eighth case checks the last clause at the wire: after pushes that change only a job's secret, a sidecar that reports the new hash must scrape with the new credentials.",
    note=E4_NOTE + " Pure list re-ordering is not asserted either way."),
 })
 
@@ -94,7 +94,7 @@ CHECKS.update({
    note="Trusted: the client-go fake clientset as stand-in for the API server. Exhaustive within the stated bounds only; foreign pods, missing pods and nil replica counts are outside the property's quantifier."),
  "C20": dict(engine="E5 discovery/explorer", level="exploration", ref="DESIGN.md §5 C20",
    technique="runtime monitoring: per-target probe-lifecycle automaton over request events recorded at loopback targets, polling monitor on Explore.Get, POST monitor on a stub shard behind the real coordinator; race-detector pass",
-   text="The real Explore + scrape.Manager + TargetsDiscovery (and, in every second case, the real coordinator with a stub shard) run against 30-300 loopback HTTP targets with scripted latency and failing probes, with the real 5 s retry interval, while discovery updates remove and re-add targets inside the retry sleep and a reload keeps or drops a job. Every request at a target is recorded (arrival, departure, outcome, in-flight count) and judged per presence period: probed once asked for, single flight, retry not before the interval and within bounded time, silence after success, at most one probe after removal; Get reports healthy only after a success and with the payload's counts; nothing is assigned before a successful probe and the first assignment carries the kept count. Further cases: a job whose HTTP client cannot be built when its targets are first asked for and can after a later reload - every target must be probed and healthy within interval + 10 s of the repair; and a reload that changes a job's metric relabel rules and params before a new target is probed for the first time (estimate under the new rules, request with the new params); and jobs with a configured param that some targets override through a relabel rule (every probe carries its own target's params and gets its own exposition's counts).",
+   text="The real Explore + scrape.Manager + TargetsDiscovery (and, in every second case, the real coordinator with a stub shard) run against 30-300 loopback HTTP targets with scripted latency and failing probes, with the real 5 s retry interval, while discovery updates remove and re-add targets inside the retry sleep and a reload keeps or drops a job. Every request at a target is recorded (arrival, departure, outcome, in-flight count) and judged per presence period: probed once asked for, single flight, retry not before the interval and within bounded time, silence after success, at most one probe after removal; Get reports healthy only after a success and with the payload's counts; nothing is assigned before a successful probe and the first assignment carries the kept count. Further cases: a job whose HTTP client cannot be built when its targets are first asked for and can after a later reload - every target must be probed and healthy within interval + 10 s of the repair; and a reload that changes a job's metric relabel rules and params before a new target is probed for the first time (estimate under the new rules, request with the new params); and jobs with a configured param that some targets override through a relabel rule (every probe carries its own target's params and gets its own exposition's counts). A third of the failing probes answer 204 instead of 500 / hanging up.",
    note="Trusted: server-side timestamps at the loopback targets; harness-side bracketing of when an update reached the explorer. Upper time bounds are bounded-progress restatements with workloads sized for >2x slack; lower bounds need no tolerance."),
 })
 
@@ -115,7 +115,7 @@ CHECKS.update({
    note=E2_NOTE),
  "C19": dict(engine="E1 stub-cycle", level="exploration", ref="DESIGN.md §5 C19",
    technique="differential runtime monitoring: request traces of a replica run alone vs. next to a hostile replica (both orders), multi-cycle, real coordinator",
-   text="For scripted multi-cycle scenarios the canonical trace of everything a replica's shards and manager receive is recorded when the replica is coordinated alone and when a hostile replica (listing or scaling failures, unready, out of sync, another placement of the same targets) is coordinated before or after it in the same cycles; the traces must be identical cycle by cycle. Cases whose own outcome depends on map order are detected by 30 (+100 on a mismatch) repetitions of the victim alone and discarded when those repetitions are mixed; if the victim alone behaves differently from before in 100 of 100 repetitions after the other replica has been coordinated in the same process, that is reported as state leaking between replicas (also probed after every case). The Kubernetes ReplicasManager is checked the same way on a fake clientset: one StatefulSet's scripted life (ready / not ready / rolling update, time passing through a verif-tagged hook that shifts the manager's not-ready timers) alone and next to a second StatefulSet - whether it is handed to the coordinator in a cycle must be identical; in a third of these cases the other StatefulSet has a missing pod, and a panic while listing shards counts as a violation.",
+   text="For scripted multi-cycle scenarios the canonical trace of everything a replica's shards and manager receive is recorded when the replica is coordinated alone and when a hostile replica (listing or scaling failures, unready, out of sync, another placement of the same targets) is coordinated before or after it in the same cycles; the traces must be identical cycle by cycle. Cases whose own outcome depends on map order are detected by 30 (+100 on a mismatch) repetitions of the victim alone and discarded when those repetitions are mixed; if the victim alone behaves differently from before in 100 of 100 repetitions after the other replica has been coordinated in the same process, that is reported as state leaking between replicas (also probed after every case). The Kubernetes ReplicasManager is checked the same way on a fake clientset: one StatefulSet's scripted life (ready / not ready / rolling update, time passing through a verif-tagged hook that shifts the manager's not-ready timers) alone and next to a second StatefulSet - whether it is handed to the coordinator in a cycle must be identical; in a third of these cases the other StatefulSet has a missing pod, and a panic while listing shards counts as a violation; a quarter of the cases install the same chart in two namespaces under a manager for all namespaces and compare the shard listings.",
    note=E1_NOTE + " A mismatch is reported only if 130 executions of the victim alone all produce the reference trace."),
 })
 
